@@ -97,6 +97,7 @@ def gen_program(rng, size: int = 10, with_args: bool = True, control_flow: bool 
             "reduce", "topk", "split", "unique", "seq", "seq_at", "optional", "where", "inline",
             "range", "const_of_shape", "size", "identity", "unsqueeze", "if", "binary_arg", "concat_from_seq",
             "arg_default", "arg_default", "seq_pair", "opt_pair",
+            "inline0", "inline0", "intdiv", "intdiv", "intdiv_shape", "intdiv_shape",
         ])
         if choice == "const":
             new_const()
@@ -312,11 +313,62 @@ def gen_program(rng, size: int = 10, with_args: bool = True, control_flow: bool 
                 j = pick(lambda v: is_num(v) and v.shape == [3] and v.dt == "i64")
                 emit({"op": "inline", "args": [i, j]}, _V("tensor", "i64", [3], vs[i].const and vs[j].const),
                      _V("tensor", "i64", [3], vs[i].const and vs[j].const))
+        elif choice == "inline0":
+            # a node-less pass-through model (its outputs are its inputs) inlined on a constant / any tensor
+            i = pick(lambda v: is_t(v) and v.dt in NUM + ["bool"] and (v.const or rng.random() < 0.3))
+            if i is not None:
+                emit({"op": "inline0", "args": [i], "dt": vs[i].dt, "shape": list(vs[i].shape)},
+                     _V("tensor", vs[i].dt, vs[i].shape, vs[i].const))
+        elif choice == "intdiv":
+            # signed integer Div / Mod of constants with both signs and inexact quotients, rank 0 / 1
+            dt = rng.choice(["i64", "i64", "i32"])
+            n = rng.choice([0, 1, 2, 4])
+            pool = [(-7, 2), (7, -2), (-9, 4), (8, -3), (-1, 2), (5, 3), (-5, -3), (-13, 5), (9, -4), (-6, 3)]
+            prs = [rng.choice(pool) for _ in range(max(n, 1))]
+            shape = [] if n == 0 else [n]
+            a = emit({"op": "const", "how": rng.choice(["value", "init"]), "dt": dt, "shape": shape, "data": [p[0] for p in prs]}, _V("tensor", dt, shape, True))
+            b = emit({"op": "const", "how": "value", "dt": dt, "shape": shape, "data": [p[1] for p in prs]}, _V("tensor", dt, shape, True))
+            which = rng.choice(["div", "div", "mod0", "mod1"])
+            if which == "div":
+                emit({"op": "div", "args": [a, b]}, _V("tensor", dt, shape, True))
+            else:
+                emit({"op": "mod", "args": [a, b], "fmod": int(which[-1])}, _V("tensor", dt, shape, True))
+        elif choice == "intdiv_shape":
+            # ... and the quotient used as a shape-like input (Slice start, Tile repeats, Expand / Reshape target, Gather index)
+            C = lambda data, shape: emit({"op": "const", "how": rng.choice(["value", "value", "init"]), "dt": "i64", "shape": shape, "data": data}, _V("tensor", "i64", list(shape), True))  # noqa: E731
+            num, den = rng.choice([(-7, 2), (7, -2), (-5, 2), (-9, 4), (-7, 3)])
+            q = int(num / den)  # ONNX integer Div truncates: -3, -3, -2, -2, -2
+            d = emit({"op": "div", "args": [C([num], [1]), C([den], [1])]}, _V("tensor", "i64", [1], True))
+            xdt = rng.choice(["i64", "f32"])
+            use = rng.choice(["slice", "tile", "expand", "reshape", "gather"])
+            if use == "slice":
+                x = new_const(xdt, [6], "value")
+                emit({"op": "slice", "args": [x, d, C([6], [1])]}, _V("tensor", xdt, [-q], True))
+            elif use == "gather":
+                x = new_const(xdt, [6], "value")
+                emit({"op": "gather", "args": [x, d]}, _V("tensor", xdt, [1], True))
+            else:
+                pos = emit({"op": "neg", "args": [d]}, _V("tensor", "i64", [1], True))  # 3 or 2
+                if use == "tile":
+                    x = new_const(xdt, [2], "value")
+                    emit({"op": "tile", "args": [x, pos]}, _V("tensor", xdt, [2 * -q], True))
+                elif use == "expand":
+                    x = new_const(xdt, [1], "value")
+                    emit({"op": "expand", "args": [x, pos]}, _V("tensor", xdt, [-q], True))
+                else:
+                    x = new_const(xdt, [6], "value")
+                    t = emit({"op": "concat", "args": [pos, C([-1], [1])]}, _V("tensor", "i64", [2], True))
+                    emit({"op": "reshape", "args": [x, t]}, _V("tensor", xdt, [-q, 6 // -q], True))
         elif choice == "if":
             i = pick(lambda v: is_num(v)) if control_flow else None
             if i is not None:
                 c = new_const("bool", [], "value")
                 emit({"op": "if", "args": [c, i]}, _V("tensor", vs[i].dt, vs[i].shape, False))
+    # constants / initializers created from NON-NATIVE-ENDIAN arrays (np.frombuffer(buf, '>f4') ...):
+    # same values, other byte order - also for the shape-like targets emitted above
+    for st in steps:
+        if st["op"] == "const" and st.get("how") in ("value", "init") and st.get("dt") in NUM and rng.random() < 0.3:
+            st["endian"] = ">"
     return steps
 
 
@@ -340,9 +392,28 @@ def _inline_model():
     return _INLINE_MODEL
 
 
+_PASSTHROUGH: dict = {}
+
+
+def _passthrough_model(dt: str, shape: tuple):
+    """A model without nodes: its single output *is* its input (`x`)."""
+    import onnx
+    import onnx.helper as oh
+
+    key = (dt, shape)
+    if key not in _PASSTHROUGH:
+        et = oh.np_dtype_to_tensor_dtype(np.dtype(_NP[dt]))
+        vi = oh.make_tensor_value_info("x", et, list(shape))
+        g = oh.make_graph([], "passthrough", [vi], [vi])
+        _PASSTHROUGH[key] = oh.make_model(g, opset_imports=[oh.make_operatorsetid("", 17)])
+    return _PASSTHROUGH[key]
+
+
 def _array(step):
     dt = step["dt"]
     arr = np.array(step["data"], dtype=_NP[dt]).reshape(tuple(step["shape"]))
+    if step.get("endian") == ">":
+        arr = arr.astype(arr.dtype.newbyteorder(">"))
     return arr
 
 
@@ -374,7 +445,11 @@ def apply_step(step: dict, vars_: list) -> list:
         if o == "concat_from_sequence":
             return [op.concat_from_sequence(a[0], axis=0)]
         return [getattr(op, o)(a[0])]
-    if o in ("add", "sub", "mul", "equal", "less", "reshape", "expand", "tile", "sequence_at"):
+    if o == "mod":
+        return [op.mod(a[0], a[1], fmod=step["fmod"])]
+    if o == "inline0":
+        return list(inline(_passthrough_model(step["dt"], tuple(step["shape"])))(x=a[0]).values())
+    if o in ("add", "sub", "mul", "div", "equal", "less", "reshape", "expand", "tile", "sequence_at"):
         return [getattr(op, o)(a[0], a[1])]
     if o == "cast":
         return [op.cast(a[0], to=_NP[step["to"]])]
@@ -578,7 +653,7 @@ def c07_check_program(steps: list, sel: str, seed: int) -> dict:
             opn = steps[r["step_of_var"][i]]["op"]
             if L.has_value(v):
                 stats["compared"] += 1
-                if opn in ("topk", "split", "unique", "inline"):
+                if opn in ("topk", "split", "unique", "inline", "inline0"):
                     stats["multi"] += 1
                 why = values_equal(v._get_value(), o)
                 if why:
